@@ -63,6 +63,52 @@ def enumerate_deep(n=5):
                 yield (parents, ("R",) + kinds, ((0, False, u),))
 
 
+def enumerate_shared_cf(max_scopes=4):
+    """A control-flow NODE created once in the main program (an If whose branch reads a value v of the main program) whose result
+    is used in one or two scopes of different depth, while v itself is used in at most one further scope; both orders of the uses."""
+    for n in range(2, max_scopes + 1):
+        scopes = list(range(n))
+        for parents in tree_shapes(n):
+            for kinds in itertools.product("IL", repeat=n - 1):
+                for r in (1, 2):
+                    for un in itertools.combinations(scopes, r):
+                        for uv in [()] + [(s,) for s in scopes]:
+                            for rev in (False, True):
+                                yield (parents, ("R",) + kinds, un, uv, rev)
+
+
+def build_shared_cf(sk):
+    parents, kinds, un, uv, rev = sk
+    n = len(kinds)
+    children = {s: [t for t in range(1, n) if parents[t - 1] == s] for s in range(n)}
+    a = B.argument(B.Tensor(F32, (2,)))
+    cond = B.argument(B.Tensor(np.bool_, ()))
+    v = op.relu(a)
+    (node,) = op.if_(cond, then_branch=lambda: [op.add(v, op.const(np.array([1, 1], F32)))], else_branch=lambda: [op.identity(a)])
+
+    def scope_body(s, body_arg):
+        parts = []
+        for t in children[s]:
+            if kinds[t] == "I":
+                parts.append(op.if_(cond, then_branch=lambda t=t: scope_body(t, None), else_branch=lambda: [op.identity(a)])[0])
+            else:
+                parts.append(op.loop(op.const(np.array(2, np.int64)), v_initial=[a], body=lambda i, c, x, t=t: [c] + scope_body(t, x))[0])
+        if s in un:
+            parts.append(op.abs(node))
+        if s in uv:
+            parts.append(op.neg(v))
+        if body_arg is not None:
+            parts.append(op.identity(body_arg))
+        if not parts:
+            parts.append(op.identity(a))
+        if rev:
+            parts.reverse()
+        return [op.sum(parts)]
+
+    res = scope_body(0, None)
+    return {"a": a, "c": cond}, {"o": res[0]}
+
+
 def descendants(parents, s):
     out = {s}
     for i in range(len(parents) + 1):
@@ -288,6 +334,13 @@ def run(run: Run) -> int:
         if extra is not None and legal and len(cases) % 3 == 0:
             # the same Vars built again in another combination: the movable value is now also a model output
             cases.append(B.Case(ins, {"o": outs["o"], "x": extra}, False, dict(meta, second_build=True)))
+    shared = list(enumerate_shared_cf(4))
+    stp = max(1, len(shared) // (300 if quick else 100000))
+    for sk in shared[run.rng.randrange(stp)::stp]:
+        ins, outs = build_shared_cf(sk)
+        meta = {"skeleton": [list(sk[0]), list(sk[1]), {"shared-control-flow-node used in": list(sk[2]), "its operand used in": list(sk[3]),
+                                                        "reversed": sk[4]}], "legal": True}
+        cases.append(B.Case(ins, outs, False, meta))
     n_skel = len(cases)
     g = B.GenX(run.rng, leak_p=0.5, features=("func",))
     for _ in range(150 if quick else 2500):
